@@ -118,7 +118,14 @@ def erasure_patterns(ss):
             yield frozenset(s[1] for s in ss if s[0] in ks)
 
 
+MIX_TYPES = [A, ('stv', 'a'), ('tv', 'b'), ('stv', 'b'), BOOL, fun(A, BOOL), fun(('stv', 'a'), BOOL), NAT]
+
+
 def cases(tier):
+    for i in range(len(MIX_TYPES)):
+        for j in range(len(MIX_TYPES)):
+            for kind in ('vv', 'sv', 'vs', 'ss'):
+                yield ['mix', i, j, kind]
     for i, t in enumerate(universe(tier)):
         yield ['term', i]
     for i, sk in enumerate(skeletons(tier)):
@@ -432,7 +439,53 @@ def on_hang(case):
     return viol('hang', case, 'type inference does not terminate on case %r' % (case,))
 
 
+def run_mix(case):
+    """two declared (schematic) variables of types T1, T2 used where their types must agree"""
+    from kernel.term import Var, SVar, Const, Comb
+    from logic import context
+    from syntax import infertype
+    T1, T2 = MIX_TYPES[case[1]], MIX_TYPES[case[2]]
+    kind = case[3]
+    n_ok = 0
+    for shape_ in ('eq', 'eq-rev', 'app'):
+        vs, svs = {}, {}
+        (svs if kind[0] == 's' else vs)['u'] = ref.to_type(T1)
+        if shape_ == 'app':
+            (svs if kind[1] == 's' else vs)['w'] = ref.to_type(fun(T2, BOOL))
+        else:
+            (svs if kind[1] == 's' else vs)['w'] = ref.to_type(T2)
+        u = (SVar if kind[0] == 's' else Var)('u', None)
+        w = (SVar if kind[1] == 's' else Var)('w', None)
+        if shape_ == 'eq':
+            skel = Comb(Comb(Const('equals', None), u), w)
+        elif shape_ == 'eq-rev':
+            skel = Comb(Comb(Const('equals', None), w), u)
+        else:
+            skel = Comb(w, u)
+        desc = 'skeleton %s with u :: %s (%s), w :: %s (%s)' % (shape_, ref.show_type(T1), kind[0], ref.show_type(T2), kind[1])
+        with context.fresh_context(vars=vs, svars=svs):
+            try:
+                out_h = infertype.type_infer(skel)
+            except RecursionError:
+                return viol('foreign-error', case + [shape_], 'RecursionError: ' + desc)
+            except Exception as e:
+                if type(e).__name__ not in OWN_ERRORS:
+                    return viol('foreign-error', case + [shape_], 'inference fails with %s: %s' % (type(e).__name__, desc))
+                if T1 == T2:
+                    return viol('no-recovery', case + [shape_], 'types agree but inference fails: ' + desc)
+                continue
+        out, bad = check_output(out_h, desc, case + [shape_], {})
+        if bad:
+            return bad
+        if T1 != T2:
+            return viol('mix-accepted', case + [shape_], 'declared types differ but inference returned %s: %s' % (ref.show(out), desc))
+        n_ok += 1
+    return Outcome('mix-ok' if n_ok else 'mix-rejected', n_ok > 0, obs='m%d' % n_ok)
+
+
 def run(case):
+    if case[0] == 'mix':
+        return run_mix(case)
     if case[0] == 'term':
         return run_term(case)
     return run_skel(case)
